@@ -16,6 +16,7 @@ from .exch import BUY, SELL, KINDS, World
 SECOND = {
     "compete": [("limit", "buy"), ("market", "buy"), ("limit", "sell"), ("stop", "sell")],
     "all": [(k, s) for k in KINDS for s in ("buy", "sell")],
+    "market_sell": [("market", "sell")],
 }
 
 
